@@ -1,4 +1,4 @@
-CONSTANTS B = 2  Bufs = {99}  Paths = {"B"}  WithTrunc = TRUE  WithCorrupt = TRUE  FixSeek = TRUE  FixData = TRUE  FixHdr = FALSE
+CONSTANTS B = 2  Bufs = {99}  Paths = {"B"}  WithTrunc = TRUE  WithCorrupt = TRUE  FixSeek = TRUE  FixData = TRUE  FixHdr = TRUE
 CONSTANT Shapes <- GenShapes
 INIT GenInit
 NEXT GenNext
